@@ -49,7 +49,7 @@ func decOfText(txt string) *D {
 }
 
 func c04(c *Ctx) {
-	c.Rule = fmt.Sprintf("exhaustive: grid of %d boundary values squared x {Add,Subtract,Multiply,Divide,Modulo} x argument supplied as literal / numeric string / path to number / path to numeric string, receiver as float64 / decimal / int / numeric string; Sum, Average, Minimum, Maximum over lists of 0..8 grid values (as array receiver, as arguments, mixed); random: decimals of <=15 significant digits, exponents -12..12. Oracle: math/big.Rat (exact; half a unit of the 16th place for Divide/Average; a-b*trunc(a/b) for Modulo). Non-trivial = both operands non-zero; distinct by (query, data).", len(gridC04))
+	c.Rule = fmt.Sprintf("exhaustive: grid of %d boundary values squared x {Add,Subtract,Multiply,Divide,Modulo} x argument supplied as literal / numeric string / path to number / path to numeric string, receiver as float64 / decimal / int / numeric string; the same literals under other legal spellings (leading / trailing zeros, shifted mantissa with exponent, E+0); Sum, Average, Minimum, Maximum over lists of 0..8 grid values (as array receiver, as arguments, mixed); random: decimals of <=15 significant digits, exponents -12..12. Oracle: math/big.Rat (exact; half a unit of the 16th place for Divide/Average; a-b*trunc(a/b) for Modulo). Non-trivial = both operands non-zero; distinct by (query, data).", len(gridC04))
 	type bin struct {
 		name string
 		f    func(a, b *big.Rat) (want *big.Rat, approx bool, ok bool)
@@ -107,6 +107,44 @@ func c04(c *Ctx) {
 					addBin(fn, recv, at, a, "$.ys", b, doc, "binary:path-to-string")
 				}
 			}
+		}
+	}
+	// the same numbers under other legal spellings of the literal: leading zeros, trailing zeros, a
+	// shifted mantissa with an exponent, upper-case E, an explicit plus in the exponent
+	{
+		type sp struct {
+			text string
+			val  *big.Rat
+		}
+		var spells []sp
+		for _, base := range []string{"8", "10", "64", "15", "7.5", "100", "0.5", "777", "12", "9"} {
+			v := ratStr(base)
+			for _, neg := range []bool{false, true} {
+				sign, val := "", v
+				if neg {
+					sign, val = "-", new(big.Rat).Neg(v)
+				}
+				ip, fp, hasFrac := strings.Cut(base, ".")
+				frac := ""
+				if hasFrac {
+					frac = "." + fp
+				}
+				spells = append(spells, sp{sign + "0" + base, val}, sp{sign + "00" + base, val}, sp{sign + base + "e0", val}, sp{sign + base + "E+0", val}, sp{sign + "0" + base + "e0", val})
+				if !hasFrac {
+					spells = append(spells, sp{sign + base + ".0", val}, sp{sign + base + ".00", val}, sp{sign + "0" + base + ".0", val}, sp{sign + base + "0e-1", val}, sp{sign + "0." + base + "e" + fmt.Sprint(len(base)), val})
+				} else {
+					spells = append(spells, sp{sign + ip + frac + "0", val}, sp{sign + ip + fp + "e-" + fmt.Sprint(len(fp)), val})
+				}
+			}
+		}
+		doc := h.Obj("x", h.FloatD(3), "xs", h.SliceAny(h.FloatD(1), h.FloatD(2)))
+		three := big.NewRat(3, 1)
+		for _, s := range spells {
+			for _, fn := range bins {
+				addBin(fn, h.FloatD(3), "3", three, s.text, s.val, doc, "literal-spellings")
+			}
+			ec := c.AddEval("$.xs.Sum("+s.text+")", doc, "literal-spellings", false, true)
+			ec.Check = exactly(new(big.Rat).Add(big.NewRat(3, 1), s.val))
 		}
 	}
 	c.RunEvalCases()
